@@ -1,6 +1,6 @@
 """C07 -- safe is reported only when warranted, once, and never after unsafe."""
 from . import txpipeline as tp
-FORMULAS = {'SafeWarranted', 'SafeWithoutConflict', 'SafeOnlyWarranted', 'SafeOnce', 'NeverBoth', 'CancImpliesUnsafe', 'StickyUnsafe', 'SafeEventually', 'NoError', 'NoPanic'}
+FORMULAS = {'SafeWarranted', 'SafeWithoutConflict', 'SafeOnlyWarranted', 'SafeOnce', 'NeverBoth', 'CancImpliesUnsafe', 'StickyUnsafe', 'SafeEventually', 'TrustSticky', 'NoError', 'NoPanic'}
 def main(argv):
     tp.standard('C07', FORMULAS,
                 'scripts = TLC simulation behaviours of TxPipeline mixing untrusted/trusted arrivals and inventories, conflicts before and after the '
